@@ -45,7 +45,7 @@ def freq_grid(draw, min_n=2, max_n=40, allow_zero=True, fmax=5.0):
 
 
 @st.composite
-def dir_grid(draw, min_n=8, max_n=144, uniform_only=False, allowed_n=None):
+def dir_grid(draw, min_n=8, max_n=144, uniform_only=False, allowed_n=None, relabel=False):
     """Direction grid covering the circle: sorted angles in [0,360) with every cyclic gap in
     (0.5, 170) degrees, optionally rolled so it does not start at its minimum."""
     n = draw(st.sampled_from(allowed_n)) if allowed_n else draw(st.integers(min_n, max_n))
@@ -72,7 +72,19 @@ def dir_grid(draw, min_n=8, max_n=144, uniform_only=False, allowed_n=None):
         ang = ang[roll:] + ang[:roll]
         kind = "nonuniform"
     ang = [float(a) for a in ang]
-    return {"dir": ang, "dir_kind": kind, "roll": roll}
+    # labelling of the same physical grid: [0,360), [-180,180) or unwrapped (monotone, running past 360)
+    labels = draw(st.sampled_from(["0_360", "0_360", "pm180", "unwrapped"])) if relabel else "0_360"
+    if labels == "pm180":
+        ang = [a - 360.0 if a >= 180.0 else a for a in ang]
+    elif labels == "unwrapped":
+        out = [ang[0]]
+        for a in ang[1:]:
+            nxt = a
+            while nxt <= out[-1]:
+                nxt += 360.0
+            out.append(nxt)
+        ang = out
+    return {"dir": ang, "dir_kind": kind, "roll": roll, "dir_labels": labels}
 
 
 LAYOUTS = ["none", "t", "tl", "flat"]
